@@ -50,7 +50,10 @@ func init() {
 		Plan:        func(tier string) []Batch { return same(n(tier, 16, 32), Batch{Timeout: 30 * time.Minute, Procs: 1}) }}
 	specs["C16"] = &Spec{ID: "C16", Level: "exploration", Parallel: 8,
 		Assumptions: []string{hookAssumption, "DateTime.Before is judged for instants from 1970 on, as the property states"},
-		Plan:        func(tier string) []Batch { return same(n(tier, 8, 16), Batch{Timeout: 30 * time.Minute}) }}
+		Plan: func(tier string) []Batch {
+			b := same(n(tier, 8, 16), Batch{Timeout: 30 * time.Minute})
+			return append(b, same(n(tier, 2, 4), Batch{Mode: "loopback", Timeout: 30 * time.Minute, Procs: 4})...)
+		}}
 }
 
 func init() {
@@ -108,7 +111,10 @@ func init() {
 func init() {
 	specs["C17"] = &Spec{ID: "C17", Level: "exploration", Parallel: 8,
 		Assumptions: []string{hookAssumption, "door names held in the map returned by DeviceList are not asserted to be insulated (the statement only promises that changing that map does not change where requests go)"},
-		Plan:        func(tier string) []Batch { return same(n(tier, 8, 16), Batch{Timeout: 30 * time.Minute}) }}
+		Plan: func(tier string) []Batch {
+			b := same(n(tier, 8, 16), Batch{Timeout: 30 * time.Minute})
+			return append(b, same(n(tier, 2, 4), Batch{Mode: "loopback", Timeout: 30 * time.Minute, Procs: 4})...)
+		}}
 }
 
 var loopAssumption = "loopback (127.0.0.0/8) sockets stand in for the network; datagrams sent by one farm goroutine arrive in order"
@@ -186,5 +192,8 @@ func init() {
 func init() {
 	specs["C04"] = &Spec{ID: "C04", Level: "exploration", Parallel: 8,
 		Assumptions: []string{hookAssumption, "a nil result pointer is the API's 'no card / no event / no profile': calling a value-receiver String on it is the caller's bug and is not done", "rendering caller-built enum values outside their range (TaskType, CardFormat) is not exercised: the API never returns them", "a panic in a goroutine spawned by the library ends the worker: the parent reports the crash trace"},
-		Plan:        func(tier string) []Batch { return same(n(tier, 8, 16), Batch{Timeout: 30 * time.Minute}) }}
+		Plan: func(tier string) []Batch {
+			b := same(n(tier, 8, 16), Batch{Timeout: 30 * time.Minute})
+			return append(b, same(n(tier, 2, 4), Batch{Mode: "loopback", Timeout: 30 * time.Minute, Procs: 4})...)
+		}}
 }
